@@ -197,6 +197,16 @@ func (m *UDPMuxDefault) GetConn(ufrag string, addr net.Addr) (net.PacketConn, er
 	}
 
 	muxedConn, ok := m.getConn(ufrag, isIPv6)
+	if ok {
+		// Pin the existing connection while another reference is created for it. If its last handle
+		// has already been released it is closed (or about to be) although the watcher below has not
+		// unregistered it yet: a reference to it would be a dead connection, so a fresh one is created.
+		if acquireSharedRef(&muxedConn.refs) {
+			defer muxedConn.refs.Add(-1)
+		} else {
+			ok = false
+		}
+	}
 	if !ok {
 		muxedConn = m.createMuxedConn(ufrag)
 		go func() {
